@@ -1,13 +1,1921 @@
-//! C10 — not yet implemented
-use crate::core::{Ctx, Outcome};
-use serde_json::Value;
+//! C10 — The audit stream is gap-free and sufficient to replicate engine state.
+//!
+//! Engine: E-SEQ over whole engine-event histories (every sequence of length <= d over the alphabet
+//! below, every prefix being a history of its own), in several "worlds" (strategy that does / does not
+//! issue orders, healthy / terminated / missing execution links, trading initially on / off, audit
+//! sequence starting at 0 or mid-run). Every history is executed from scratch
+//!
+//!   * through the real `sync_run_with_audit` (feed = the real `UnboundedRx` used as `Iterator`),
+//!   * through the real `async_run_with_audit` (feed = the real `UnboundedRx` used as `Stream`), polled
+//!     manually on a paused current-thread tokio runtime under environment schedules (which events are
+//!     already queued when the runner is polled, whether the feed closes together with the last batch),
+//!   * by a *twin* engine stepped event by event with `process_with_audit` (gives the engine state after
+//!     every record),
+//!
+//! each preceded by `audit_snapshot()` exactly as `SystemBuild::init_internal` does, with the real
+//! `mpsc_unbounded` audit channel behind `ChannelTxDroppable` as the recorder. The recorded stream then
+//! drives the real `StateReplicaManager`, one tick per `run()` call, and the derived fault streams
+//! (drop / duplicate / swap a tick).
+//!
+//! Oracle (each rule names the sentence of the statement it comes from):
+//!   S1 "exactly one audit record per processed input event, carrying that event": record i carries
+//!      feed event i; no event is skipped or reported twice.
+//!   S2 "strictly consecutive sequence numbers following the initial state snapshot": record i has
+//!      sequence snapshot+i (i = 1..).
+//!   S3 "the run's final record is the shutdown, feed-ended or fatal-error record": the last record is
+//!      FeedEnded (and then every feed event has its record), or carries a Shutdown event, or carries
+//!      errors; no earlier record is of that kind (the run would have had to end there).
+//!   S4 (tie) the runner's records equal the twin's records and the runner's final engine state equals
+//!      the twin's — this is what allows the twin's per-record states to stand for the runner's engine.
+//!   R1 "a replica built from the snapshot by applying the audit records reproduces … exactly after
+//!      every record": after every tick, replica.{trading, connectivity, assets} and per instrument
+//!      {position, data, tear_sheet} equal the engine's; the in-order stream is never rejected.
+//!   R2 "its orders equal the engine's orders once in-flight request markers are set aside": per
+//!      instrument, orders projected to their exchange-confirmed open data (OpenInFlight and
+//!      CancelInFlight{None} dropped, CancelInFlight{Some(o)} -> Open(o)) are equal.
+//!   F1 "a stream with a missing or repeated record is rejected or skipped rather than applied": in a
+//!      fault stream a tick may change the replica only if it directly follows the last applied tick;
+//!      after every delivered tick the replica must equal the engine state of some admissible
+//!      "applied so far" prefix (either unchanged, or advanced by exactly the next in-order tick).
+//!      `Err` vs. silent skip is not distinguished (both are allowed).
+//!
+//! Layers and bounds (measured numbers go to the evidence file):
+//!   1. exhaustive histories over the full alphabet (40 symbols) up to length 3 / 4 (quick / thorough),
+//!      all async schedules up to length 2 / 3 and two canonical ones beyond; every fault stream of every
+//!      history that is not extended further and of every history of length <= 2, for the others the
+//!      faults at the last event record and the final record (earlier faults are prefixes of the
+//!      extensions' fault streams);
+//!   2. the same over the "core" alphabet (order / position life cycle, 18 symbols) up to length 4 / 5;
+//!   3. joint-state BFS with de-duplication over (engine state, replica state, strategy memory), full
+//!      alphabet, depth 4 / 6: every transition is the real `process_with_audit` plus the real replica
+//!      `run()` on the record after a gap, the record, the record again (R1, R2, F1 only, no runners);
+//!   self-tests: determinism (same history twice), negative control (a strategy that changes engine
+//!      state inside `on_disconnect` must be reported) — failing either is exit 2, not a verdict.
 
-pub fn run(_ctx: &Ctx) -> Outcome {
-    eprintln!("MACHINERY: C10 not implemented");
-    std::process::exit(2)
+use super::common::{EState, ScriptClock, ScriptRisk, ScriptTx, TxMode, spot, strategy_id, t_plus};
+use crate::core::{Ctx, Distinct, Outcome, Samples};
+use crate::explore::env::{flag_waker, paused_rt, poll_quiesce};
+use barter::{
+    EngineEvent, Sequence,
+    engine::{
+        Engine, EngineOutput, Processor,
+        audit::{AuditTick, Auditor, EngineAudit, context::EngineContext, state_replica::StateReplicaManager},
+        command::Command,
+        execution_tx::MultiExchangeTxMap,
+        process_with_audit,
+        run::{async_run_with_audit, sync_run_with_audit},
+        state::{
+            EngineState,
+            global::DefaultGlobalData,
+            instrument::{data::{DefaultInstrumentMarketData, InstrumentDataState}, filter::InstrumentFilter},
+            order::Orders,
+            trading::TradingState,
+        },
+    },
+    execution::AccountStreamEvent,
+    strategy::{
+        algo::AlgoStrategy,
+        close_positions::{ClosePositionsStrategy, close_open_positions_with_market_orders},
+        on_disconnect::OnDisconnectStrategy,
+        on_trading_disabled::OnTradingDisabled,
+    },
+};
+use barter_data::{
+    books::Level,
+    event::{DataKind, MarketEvent},
+    streams::consumer::MarketStreamEvent,
+    subscription::{book::OrderBookL1, trade::PublicTrade},
+};
+use barter_execution::{
+    AccountEvent, AccountEventKind, AccountSnapshot, InstrumentAccountSnapshot,
+    balance::{AssetBalance, Balance},
+    error::{ConnectivityError, OrderError},
+    order::{
+        Order, OrderKey, OrderKind, TimeInForce,
+        id::{ClientOrderId, OrderId, StrategyId},
+        request::{OrderRequestCancel, OrderRequestOpen, OrderResponseCancel, RequestCancel, RequestOpen},
+        state::{ActiveOrderState, Cancelled, Open, OrderState},
+    },
+    trade::{AssetFees, Trade, TradeId},
+};
+use barter_instrument::{
+    Side,
+    asset::AssetIndex,
+    exchange::{ExchangeId, ExchangeIndex},
+    index::IndexedInstruments,
+    instrument::InstrumentIndex,
+};
+use barter_integration::{
+    FeedEnded,
+    channel::{ChannelTxDroppable, mpsc_unbounded},
+    collection::one_or_many::OneOrMany,
+    snapshot::Snapshot,
+};
+use rayon::prelude::*;
+use rust_decimal::Decimal;
+use rust_decimal_macros::dec;
+use serde::{Deserialize, Serialize};
+use serde_json::{Value, json};
+use std::{
+    cell::Cell,
+    collections::{BTreeMap, HashMap, HashSet},
+    hash::Hasher,
+    panic::{AssertUnwindSafe, catch_unwind},
+    sync::atomic::{AtomicU64, Ordering},
+    task::Poll,
+};
+
+type Event = EngineEvent<DataKind>;
+type Audit = EngineAudit<Event, EngineOutput<u32, ExchangeId>>;
+type Tick = AuditTick<Audit, EngineContext>;
+type SnapTick = AuditTick<EState, EngineContext>;
+type Eng = Engine<ScriptClock, EState, MultiExchangeTxMap<ScriptTx>, Strat, ScriptRisk>;
+type Replica = StateReplicaManager<EState, std::vec::IntoIter<Tick>>;
+type Viol = (String, String);
+
+// ------------------------------------------------------------------------------------------------
+// Strategy seam (own type: the algo output must be a deterministic function of the engine state so
+// that the runner engines and the twin behave identically without the explorer reaching inside).
+// ------------------------------------------------------------------------------------------------
+
+#[derive(Debug, Clone, Copy, PartialEq, Eq, Serialize, Deserialize)]
+pub enum StratKind {
+    /// never issues orders (orders then come from `Command`s)
+    Quiet,
+    /// issues order A / B once the instrument has a price and cancels it when the price moves away
+    Active,
+    /// NEGATIVE CONTROL only: disables trading inside `on_disconnect` — a state change no audit
+    /// record carries, so the replica must be reported as diverging
+    Sabotage,
 }
 
-pub fn replay(_ctx: &Ctx, _case: &Value) {
-    eprintln!("MACHINERY: C10 not implemented");
-    std::process::exit(2)
+/// Static fields of the two orders of the alphabet (A: exchange 0, B: exchange 1).
+#[derive(Debug, Clone, Copy)]
+struct Tpl {
+    cid: &'static str,
+    exchange: ExchangeIndex,
+    instrument: InstrumentIndex,
+    side: Side,
+    price: Decimal,
+    quantity: Decimal,
+}
+
+impl Tpl {
+    fn key(&self) -> OrderKey {
+        OrderKey {
+            exchange: self.exchange,
+            instrument: self.instrument,
+            strategy: strategy_id(),
+            cid: ClientOrderId::new(self.cid),
+        }
+    }
+    fn request_open(&self) -> OrderRequestOpen {
+        OrderRequestOpen {
+            key: self.key(),
+            state: RequestOpen {
+                side: self.side,
+                price: self.price,
+                quantity: self.quantity,
+                kind: OrderKind::Limit,
+                time_in_force: TimeInForce::GoodUntilCancelled { post_only: false },
+            },
+        }
+    }
+    fn request_cancel(&self) -> OrderRequestCancel {
+        OrderRequestCancel { key: self.key(), state: RequestCancel { id: None } }
+    }
+    /// exchange report echoing the request's static fields (assumption, see `assumptions`)
+    fn report(&self, state: OrderState) -> Order<ExchangeIndex, InstrumentIndex, OrderState> {
+        Order {
+            key: self.key(),
+            side: self.side,
+            price: self.price,
+            quantity: self.quantity,
+            kind: OrderKind::Limit,
+            time_in_force: TimeInForce::GoodUntilCancelled { post_only: false },
+            state,
+        }
+    }
+    fn oid(&self) -> OrderId {
+        OrderId::new(format!("oid-{}", self.cid))
+    }
+}
+
+#[derive(Debug)]
+pub struct Strat {
+    kind: StratKind,
+    id: StrategyId,
+    tpl: [Tpl; 2],
+    issued: [Cell<bool>; 2],
+    close_n: Cell<u32>,
+    disabled_calls: Cell<u32>,
+}
+
+impl AlgoStrategy for Strat {
+    type State = EState;
+    fn generate_algo_orders(
+        &self,
+        state: &EState,
+    ) -> (
+        impl IntoIterator<Item = OrderRequestCancel<ExchangeIndex, InstrumentIndex>>,
+        impl IntoIterator<Item = OrderRequestOpen<ExchangeIndex, InstrumentIndex>>,
+    ) {
+        let mut cancels = Vec::new();
+        let mut opens = Vec::new();
+        if self.kind == StratKind::Active {
+            for (i, t) in self.tpl.iter().enumerate() {
+                let inst = state.instruments.instrument_index(&t.instrument);
+                let price = inst.data.price();
+                match inst.orders.0.get(&ClientOrderId::new(t.cid)) {
+                    // client order ids are used once: only while the id is neither tracked nor used before
+                    None if !self.issued[i].get() && price.is_some() => {
+                        self.issued[i].set(true);
+                        opens.push(t.request_open());
+                    }
+                    Some(order)
+                        if matches!(order.state, ActiveOrderState::OpenInFlight(_) | ActiveOrderState::Open(_))
+                            && price.is_some()
+                            && price != Some(t.price) =>
+                    {
+                        if let Some(c) = order.to_request_cancel() {
+                            cancels.push(c);
+                        }
+                    }
+                    _ => {}
+                }
+            }
+        }
+        (cancels, opens)
+    }
+}
+
+impl ClosePositionsStrategy for Strat {
+    type State = EState;
+    fn close_positions_requests<'a>(
+        &'a self,
+        state: &'a EState,
+        filter: &'a InstrumentFilter<ExchangeIndex, AssetIndex, InstrumentIndex>,
+    ) -> (
+        impl IntoIterator<Item = OrderRequestCancel<ExchangeIndex, InstrumentIndex>> + 'a,
+        impl IntoIterator<Item = OrderRequestOpen<ExchangeIndex, InstrumentIndex>> + 'a,
+    )
+    where
+        ExchangeIndex: 'a,
+        AssetIndex: 'a,
+        InstrumentIndex: 'a,
+    {
+        // deterministic, never reused client order ids: close-<instrument>-<n>
+        close_open_positions_with_market_orders(&self.id, state, filter, |s| {
+            let n = self.close_n.get();
+            self.close_n.set(n + 1);
+            ClientOrderId::new(format!("close-{}-{}", s.key.index(), n))
+        })
+    }
+}
+
+impl<C, T, R> OnDisconnectStrategy<C, EState, T, R> for Strat {
+    type OnDisconnect = ExchangeId;
+    fn on_disconnect(engine: &mut Engine<C, EState, T, Self, R>, exchange: ExchangeId) -> ExchangeId {
+        if engine.strategy.kind == StratKind::Sabotage {
+            engine.state.trading = TradingState::Disabled;
+        }
+        exchange
+    }
+}
+
+impl<C, S, T, R> OnTradingDisabled<C, S, T, R> for Strat {
+    type OnTradingDisabled = u32;
+    fn on_trading_disabled(engine: &mut Engine<C, S, T, Self, R>) -> u32 {
+        let n = engine.strategy.disabled_calls.get() + 1;
+        engine.strategy.disabled_calls.set(n);
+        n
+    }
+}
+
+// ------------------------------------------------------------------------------------------------
+// Worlds
+// ------------------------------------------------------------------------------------------------
+
+#[derive(Debug, Clone, Serialize, Deserialize)]
+pub struct WorldSpec {
+    pub name: String,
+    pub strat: StratKind,
+    /// execution link of exchange 0 / 1 (None = tracked exchange without link)
+    pub links: [Option<TxMode>; 2],
+    pub trading_enabled: bool,
+    /// value of the engine's audit sequence when the snapshot is taken
+    pub seq0: u64,
+    /// risk manager refuses every cancel request (they are then reported, not sent)
+    #[serde(default)]
+    pub risk_refuses_cancels: bool,
+}
+
+pub struct World {
+    spec: WorldSpec,
+    instruments: IndexedInstruments,
+    state0: EState,
+    ex: [ExchangeId; 2],
+    /// i0 = btc_usdt on exchange 0, i1 = eth_usdt on exchange 0, i2 = btc_usdt on exchange 1
+    inst: [InstrumentIndex; 3],
+    usdt0: AssetIndex,
+    btc1: AssetIndex,
+    tpl: [Tpl; 2],
+}
+
+fn worlds() -> Vec<WorldSpec> {
+    let h = Some(TxMode::Healthy);
+    vec![
+        WorldSpec { name: "quiet/links=ok,ok/trading=off/seq0=0".into(), strat: StratKind::Quiet, links: [h, h], trading_enabled: false, seq0: 0, risk_refuses_cancels: false },
+        WorldSpec { name: "active/links=ok,ok/trading=on/seq0=0".into(), strat: StratKind::Active, links: [h, h], trading_enabled: true, seq0: 0, risk_refuses_cancels: false },
+        WorldSpec { name: "quiet/links=ok,terminated/trading=off/seq0=7".into(), strat: StratKind::Quiet, links: [h, Some(TxMode::Closed)], trading_enabled: false, seq0: 7, risk_refuses_cancels: false },
+        WorldSpec { name: "active/links=ok,none/trading=on/seq0=3".into(), strat: StratKind::Active, links: [h, None], trading_enabled: true, seq0: 3, risk_refuses_cancels: false },
+        WorldSpec { name: "quiet/links=unhealthy,ok/trading=on/seq0=0".into(), strat: StratKind::Quiet, links: [Some(TxMode::Unhealthy), h], trading_enabled: true, seq0: 0, risk_refuses_cancels: false },
+        // thorough tier only (appended so that world indices of replay artefacts stay stable)
+        WorldSpec { name: "active/links=ok,ok/trading=on/risk-refuses-cancels/seq0=0".into(), strat: StratKind::Active, links: [h, h], trading_enabled: true, seq0: 0, risk_refuses_cancels: true },
+        WorldSpec { name: "active/links=unhealthy,terminated/trading=on/seq0=1000000".into(), strat: StratKind::Active, links: [Some(TxMode::Unhealthy), Some(TxMode::Closed)], trading_enabled: true, seq0: 1_000_000, risk_refuses_cancels: false },
+    ]
+}
+
+fn sabotage_world() -> WorldSpec {
+    WorldSpec {
+        name: "NEGATIVE-CONTROL sabotage/links=ok,ok/trading=on".into(),
+        strat: StratKind::Sabotage,
+        links: [Some(TxMode::Healthy), Some(TxMode::Healthy)],
+        trading_enabled: true,
+        seq0: 0,
+        risk_refuses_cancels: false,
+    }
+}
+
+impl World {
+    pub fn new(spec: WorldSpec) -> Self {
+        let ex = [ExchangeId::BinanceSpot, ExchangeId::Kraken];
+        let instruments = IndexedInstruments::builder()
+            .add_instrument(spot(ex[0], "binance_spot-btc_usdt", "BTCUSDT", "btc", "usdt"))
+            .add_instrument(spot(ex[0], "binance_spot-eth_usdt", "ETHUSDT", "eth", "usdt"))
+            .add_instrument(spot(ex[1], "kraken-btc_usdt", "XBT/USDT", "btc", "usdt"))
+            .build();
+        let find_inst = |name: &str| {
+            instruments
+                .instruments()
+                .iter()
+                .find(|k| k.value.name_internal.name().as_str() == name)
+                .unwrap_or_else(|| panic!("C10 world: instrument {name} missing"))
+                .key
+        };
+        let find_asset = |e: ExchangeId, name: &str| {
+            instruments
+                .assets()
+                .iter()
+                .find(|k| k.value.exchange == e && k.value.asset.name_internal.name().as_str() == name)
+                .unwrap_or_else(|| panic!("C10 world: asset {name} missing"))
+                .key
+        };
+        let inst = [find_inst("binance_spot-btc_usdt"), find_inst("binance_spot-eth_usdt"), find_inst("kraken-btc_usdt")];
+        let ex_idx = |e: ExchangeId| {
+            instruments.exchanges().iter().find(|k| k.value == e).expect("exchange").key
+        };
+        assert_eq!(ex_idx(ex[0]), ExchangeIndex(0));
+        assert_eq!(ex_idx(ex[1]), ExchangeIndex(1));
+        let tpl = [
+            Tpl { cid: "A", exchange: ExchangeIndex(0), instrument: inst[0], side: Side::Buy, price: dec!(100), quantity: dec!(2) },
+            Tpl { cid: "B", exchange: ExchangeIndex(1), instrument: inst[2], side: Side::Sell, price: dec!(100), quantity: dec!(1) },
+        ];
+        let state0 = EngineState::builder(&instruments, DefaultGlobalData, DefaultInstrumentMarketData::default)
+            .time_engine_start(t_plus(0))
+            .trading_state(if spec.trading_enabled { TradingState::Enabled } else { TradingState::Disabled })
+            .build();
+        let usdt0 = find_asset(ex[0], "usdt");
+        let btc1 = find_asset(ex[1], "btc");
+        Self { spec, instruments, state0, ex, inst, usdt0, btc1, tpl }
+    }
+
+    /// A fresh real engine closed with the scripted seams, audit sequence at `seq0`.
+    fn engine(&self) -> Eng {
+        self.engine_from(self.state0.clone(), [false, false], 0, self.spec.seq0)
+    }
+
+    /// A real engine rebuilt around a given engine state / strategy memory (joint-state BFS).
+    fn engine_from(&self, state: EState, issued: [bool; 2], close_n: u32, seq: u64) -> Eng {
+        let txs = MultiExchangeTxMap::from_iter(
+            self.ex.iter().zip(self.spec.links.iter()).map(|(e, m)| (*e, m.map(ScriptTx::new))),
+        );
+        let strat = Strat {
+            kind: self.spec.strat,
+            id: strategy_id(),
+            tpl: self.tpl,
+            issued: [Cell::new(issued[0]), Cell::new(issued[1])],
+            close_n: Cell::new(close_n),
+            disabled_calls: Cell::new(0),
+        };
+        let risk = ScriptRisk { refuse_opens: false, refuse_cancels: self.spec.risk_refuses_cancels };
+        let mut engine = Engine::new(ScriptClock::default(), state, txs, strat, risk);
+        engine.meta.sequence = Sequence(seq);
+        engine
+    }
+}
+
+// ------------------------------------------------------------------------------------------------
+// Alphabet
+// ------------------------------------------------------------------------------------------------
+
+/// Input symbols. `o` = order template (0 = A on exchange 0, 1 = B on exchange 1); `inst` indexes
+/// `World::inst`; `ex` indexes `World::ex`.
+#[derive(Debug, Clone, Copy, PartialEq, Eq, Hash, Serialize, Deserialize)]
+pub enum Sym {
+    /// public trade: `hi=false` => price 100 at t1, `hi=true` => price 110 at t2
+    MktTrade { inst: u8, hi: bool },
+    /// L1 book of i0, bid 99 / ask 101 (equal amounts => mid 100) at t3
+    MktL1,
+    MktReconnecting(u8),
+    AcctReconnecting(u8),
+    /// 0: usdt@ex0 1000 at t1, 1: usdt@ex0 900 at t2, 2: btc@ex1 5 at t1
+    Balance(u8),
+    /// order report Open: `late=false` => (t1, filled 0), `late=true` => (t2, filled 1) — for B
+    /// (quantity 1) the late report has nothing left to fill
+    OrdOpen { o: u8, late: bool },
+    /// terminal order report: 0 FullyFilled, 1 Cancelled(t3), 2 OpenFailed
+    OrdDone { o: u8, how: u8 },
+    CancelResp { o: u8, ok: bool },
+    /// own trade (fill): Buy at 100/t1 or Sell at 110/t2, quantity 1 or 2, fee 0.1
+    Fill { inst: u8, sell: bool, qty: u8 },
+    /// full account snapshot of exchange 0: usdt 950 at t2; i0 orders [A Open t1], i1 orders []
+    AcctSnapshot,
+    Trading(bool),
+    /// Command::SendOpenRequests: 0 = A, 1 = B, 2 = [A, B]
+    CmdOpen(u8),
+    /// Command::SendCancelRequests for A / B
+    CmdCancel(u8),
+    /// Command::CancelOrders: 0 = no filter, 1 = exchange 1
+    CmdCancelOrders(u8),
+    CmdClosePositions,
+    Shutdown,
+}
+
+impl Sym {
+    /// abstract event kind used in signatures
+    fn kind(&self) -> &'static str {
+        match *self {
+            Sym::MktTrade { .. } => "market-trade",
+            Sym::MktL1 => "market-l1",
+            Sym::MktReconnecting(_) => "market-reconnecting",
+            Sym::AcctReconnecting(_) => "account-reconnecting",
+            Sym::Balance(_) => "balance",
+            Sym::OrdOpen { late: false, .. } => "order-open",
+            Sym::OrdOpen { o: 0, late: true } => "order-open-partly-filled",
+            Sym::OrdOpen { late: true, .. } => "order-open-nothing-left-to-fill",
+            Sym::OrdDone { .. } => "order-finished",
+            Sym::CancelResp { ok: true, .. } => "cancel-ok",
+            Sym::CancelResp { ok: false, .. } => "cancel-err",
+            Sym::Fill { .. } => "own-trade",
+            Sym::AcctSnapshot => "account-snapshot",
+            Sym::Trading(_) => "trading-state",
+            Sym::CmdOpen(_) => "cmd-open",
+            Sym::CmdCancel(_) => "cmd-cancel",
+            Sym::CmdCancelOrders(_) => "cmd-cancel-orders",
+            Sym::CmdClosePositions => "cmd-close-positions",
+            Sym::Shutdown => "shutdown",
+        }
+    }
+    /// could this symbol make order `o` tracked (used for the "client order ids are used once" filter)
+    fn may_track(&self, o: u8) -> bool {
+        match *self {
+            Sym::OrdOpen { o: x, .. } => x == o,
+            Sym::CmdOpen(x) => x == o || x == 2,
+            Sym::AcctSnapshot => o == 0,
+            _ => false,
+        }
+    }
+}
+
+#[derive(Debug, Clone, Copy, PartialEq, Eq)]
+enum Level_ {
+    Full,
+    Core,
+}
+
+fn base_alphabet(level: Level_) -> Vec<Sym> {
+    use Sym::*;
+    match level {
+        Level_::Full => vec![
+            MktTrade { inst: 0, hi: false }, MktTrade { inst: 0, hi: true },
+            MktTrade { inst: 2, hi: false }, MktTrade { inst: 2, hi: true },
+            MktL1,
+            MktReconnecting(0), MktReconnecting(1), AcctReconnecting(0), AcctReconnecting(1),
+            Balance(0), Balance(1), Balance(2),
+            OrdOpen { o: 0, late: false }, OrdOpen { o: 0, late: true },
+            OrdOpen { o: 1, late: false }, OrdOpen { o: 1, late: true },
+            OrdDone { o: 0, how: 0 }, OrdDone { o: 0, how: 1 }, OrdDone { o: 1, how: 0 }, OrdDone { o: 1, how: 2 },
+            CancelResp { o: 0, ok: true }, CancelResp { o: 0, ok: false },
+            CancelResp { o: 1, ok: true }, CancelResp { o: 1, ok: false },
+            Fill { inst: 0, sell: false, qty: 1 }, Fill { inst: 0, sell: true, qty: 1 },
+            Fill { inst: 0, sell: true, qty: 2 }, Fill { inst: 2, sell: false, qty: 1 },
+            AcctSnapshot,
+            Trading(true), Trading(false),
+            CmdOpen(0), CmdOpen(1), CmdOpen(2),
+            CmdCancel(0), CmdCancel(1),
+            CmdCancelOrders(0), CmdCancelOrders(1),
+            CmdClosePositions,
+            Shutdown,
+        ],
+        // order / position life cycle only, for the deeper layer
+        Level_::Core => vec![
+            MktTrade { inst: 0, hi: false }, MktTrade { inst: 0, hi: true }, MktTrade { inst: 2, hi: true },
+            AcctReconnecting(1),
+            OrdOpen { o: 0, late: false }, OrdOpen { o: 0, late: true }, OrdOpen { o: 1, late: true },
+            OrdDone { o: 0, how: 0 },
+            CancelResp { o: 0, ok: true }, CancelResp { o: 0, ok: false }, CancelResp { o: 1, ok: false },
+            Fill { inst: 0, sell: false, qty: 1 }, Fill { inst: 0, sell: true, qty: 1 }, Fill { inst: 0, sell: true, qty: 2 },
+            CmdOpen(0), CmdOpen(1),
+            CmdCancelOrders(0),
+            CmdClosePositions,
+        ],
+    }
+}
+
+/// Symbols that may extend `hist`. Restrictions (all listed under `assumptions`):
+/// * an open request for cid X is never issued after something that may have made X tracked (client
+///   order ids are used once); in `Active` worlds the strategy is the only source of open requests;
+/// * after `Shutdown` only one more (state-changing) event is appended — it must not be processed.
+fn alphabet(w: &World, base: &[Sym], hist: &[Sym]) -> Vec<Sym> {
+    if let Some(p) = hist.iter().position(|s| *s == Sym::Shutdown) {
+        return if p + 1 == hist.len() {
+            vec![Sym::MktTrade { inst: 0, hi: false }, Sym::Fill { inst: 0, sell: false, qty: 1 }]
+        } else {
+            vec![]
+        };
+    }
+    let bits = [hist.iter().any(|h| h.may_track(0)), hist.iter().any(|h| h.may_track(1))];
+    alphabet_bits(w, base, bits)
+}
+
+/// `alphabet` with the history abstracted to "something may have made A / B tracked already".
+fn alphabet_bits(w: &World, base: &[Sym], may_track: [bool; 2]) -> Vec<Sym> {
+    base.iter()
+        .copied()
+        .filter(|s| match *s {
+            Sym::CmdOpen(x) => {
+                if w.spec.strat == StratKind::Active {
+                    return false;
+                }
+                let needs: &[usize] = match x {
+                    0 => &[0],
+                    1 => &[1],
+                    _ => &[0, 1],
+                };
+                !needs.iter().any(|o| may_track[*o])
+            }
+            _ => true,
+        })
+        .collect()
+}
+
+impl World {
+    fn event(&self, s: &Sym) -> Event {
+        let acct = |ex: usize, kind: AccountEventKind<ExchangeIndex, AssetIndex, InstrumentIndex>| {
+            EngineEvent::Account(AccountStreamEvent::Item(AccountEvent { exchange: ExchangeIndex(ex), kind }))
+        };
+        let ex_of_inst = |i: u8| if i == 2 { 1usize } else { 0usize };
+        match *s {
+            Sym::MktTrade { inst, hi } => {
+                let (price, t) = if hi { (110.0, 2) } else { (100.0, 1) };
+                EngineEvent::Market(MarketStreamEvent::Item(MarketEvent {
+                    time_exchange: t_plus(t),
+                    time_received: t_plus(t),
+                    exchange: self.ex[ex_of_inst(inst)],
+                    instrument: self.inst[inst as usize],
+                    kind: DataKind::Trade(PublicTrade { id: format!("p{t}"), price, amount: 1.0, side: Side::Buy }),
+                }))
+            }
+            Sym::MktL1 => EngineEvent::Market(MarketStreamEvent::Item(MarketEvent {
+                time_exchange: t_plus(3),
+                time_received: t_plus(3),
+                exchange: self.ex[0],
+                instrument: self.inst[0],
+                kind: DataKind::OrderBookL1(OrderBookL1 {
+                    last_update_time: t_plus(3),
+                    best_bid: Some(Level { price: dec!(99), amount: dec!(1) }),
+                    best_ask: Some(Level { price: dec!(101), amount: dec!(1) }),
+                }),
+            })),
+            Sym::MktReconnecting(x) => EngineEvent::Market(MarketStreamEvent::Reconnecting(self.ex[x as usize])),
+            Sym::AcctReconnecting(x) => EngineEvent::Account(AccountStreamEvent::Reconnecting(self.ex[x as usize])),
+            Sym::Balance(b) => {
+                let (ex, asset, total, t) = match b {
+                    0 => (0, self.usdt0, dec!(1000), 1),
+                    1 => (0, self.usdt0, dec!(900), 2),
+                    _ => (1, self.btc1, dec!(5), 1),
+                };
+                acct(ex, AccountEventKind::BalanceSnapshot(Snapshot(AssetBalance {
+                    asset,
+                    balance: Balance { total, free: total },
+                    time_exchange: t_plus(t),
+                })))
+            }
+            Sym::OrdOpen { o, late } => {
+                let t = &self.tpl[o as usize];
+                let (time, filled) = if late { (2, dec!(1)) } else { (1, dec!(0)) };
+                let order = t.report(OrderState::active(Open { id: t.oid(), time_exchange: t_plus(time), filled_quantity: filled }));
+                acct(o as usize, AccountEventKind::OrderSnapshot(Snapshot(order)))
+            }
+            Sym::OrdDone { o, how } => {
+                let t = &self.tpl[o as usize];
+                let state = match how {
+                    0 => OrderState::fully_filled(),
+                    1 => OrderState::inactive(Cancelled { id: t.oid(), time_exchange: t_plus(3) }),
+                    _ => OrderState::inactive(OrderError::Connectivity(ConnectivityError::Timeout)),
+                };
+                acct(o as usize, AccountEventKind::OrderSnapshot(Snapshot(t.report(state))))
+            }
+            Sym::CancelResp { o, ok } => {
+                let t = &self.tpl[o as usize];
+                let state = if ok {
+                    Ok(Cancelled { id: t.oid(), time_exchange: t_plus(3) })
+                } else {
+                    Err(OrderError::Connectivity(ConnectivityError::Timeout))
+                };
+                acct(o as usize, AccountEventKind::OrderCancelled(OrderResponseCancel { key: t.key(), state }))
+            }
+            Sym::Fill { inst, sell, qty } => {
+                let (side, price, t) = if sell { (Side::Sell, dec!(110), 2) } else { (Side::Buy, dec!(100), 1) };
+                acct(ex_of_inst(inst), AccountEventKind::Trade(Trade {
+                    id: TradeId::new(format!("f{}{}{}", inst, sell as u8, qty)),
+                    order_id: OrderId::new("oid-fill"),
+                    instrument: self.inst[inst as usize],
+                    strategy: strategy_id(),
+                    time_exchange: t_plus(t),
+                    side,
+                    price,
+                    quantity: Decimal::from(qty),
+                    fees: AssetFees::quote_fees(dec!(0.1)),
+                }))
+            }
+            Sym::AcctSnapshot => {
+                let a = &self.tpl[0];
+                acct(0, AccountEventKind::Snapshot(AccountSnapshot {
+                    exchange: ExchangeIndex(0),
+                    balances: vec![AssetBalance {
+                        asset: self.usdt0,
+                        balance: Balance { total: dec!(950), free: dec!(900) },
+                        time_exchange: t_plus(2),
+                    }],
+                    instruments: vec![
+                        InstrumentAccountSnapshot {
+                            instrument: self.inst[0],
+                            orders: vec![a.report(OrderState::active(Open { id: a.oid(), time_exchange: t_plus(1), filled_quantity: dec!(0) }))],
+                        },
+                        InstrumentAccountSnapshot { instrument: self.inst[1], orders: vec![] },
+                    ],
+                }))
+            }
+            Sym::Trading(on) => EngineEvent::TradingStateUpdate(if on { TradingState::Enabled } else { TradingState::Disabled }),
+            Sym::CmdOpen(x) => EngineEvent::Command(Command::SendOpenRequests(match x {
+                0 => OneOrMany::One(self.tpl[0].request_open()),
+                1 => OneOrMany::One(self.tpl[1].request_open()),
+                _ => OneOrMany::Many(vec![self.tpl[0].request_open(), self.tpl[1].request_open()]),
+            })),
+            Sym::CmdCancel(o) => EngineEvent::Command(Command::SendCancelRequests(OneOrMany::One(self.tpl[o as usize].request_cancel()))),
+            Sym::CmdCancelOrders(f) => EngineEvent::Command(Command::CancelOrders(if f == 0 {
+                InstrumentFilter::None
+            } else {
+                InstrumentFilter::Exchanges(OneOrMany::One(ExchangeIndex(1)))
+            })),
+            Sym::CmdClosePositions => EngineEvent::Command(Command::ClosePositions(InstrumentFilter::None)),
+            Sym::Shutdown => EngineEvent::shutdown(),
+        }
+    }
+}
+
+// ------------------------------------------------------------------------------------------------
+// Observations
+// ------------------------------------------------------------------------------------------------
+
+/// S3's notion of a final record, written from the statement (not `Terminal::is_terminal`).
+fn is_final_kind(t: &Tick) -> bool {
+    match &t.event {
+        EngineAudit::FeedEnded => true,
+        EngineAudit::Process(p) => matches!(p.event, EngineEvent::Shutdown(_)) || !p.errors.is_empty(),
+    }
+}
+
+fn final_kind_name(t: &Tick) -> &'static str {
+    match &t.event {
+        EngineAudit::FeedEnded => "feed-ended",
+        EngineAudit::Process(p) if matches!(p.event, EngineEvent::Shutdown(_)) => "shutdown",
+        EngineAudit::Process(p) if !p.errors.is_empty() => "fatal-error",
+        EngineAudit::Process(_) => "ordinary",
+    }
+}
+
+struct RunObs {
+    snapshot: SnapTick,
+    state_before: EState,
+    ticks: Vec<Tick>,
+    final_state: EState,
+    /// runner finished (async: future completed) — false is reported as a violation
+    completed: bool,
+}
+
+/// The twin: the same engine stepped with `process_with_audit`; `states[i]` = engine state after i
+/// records (`states[0]` = snapshot state).
+struct Twin {
+    snapshot: SnapTick,
+    ticks: Vec<Tick>,
+    states: Vec<EState>,
+}
+
+fn run_twin(w: &World, events: &[Event]) -> Twin {
+    let mut e = w.engine();
+    let snapshot = <Eng as Auditor<Audit>>::audit_snapshot(&mut e);
+    let mut ticks = Vec::with_capacity(events.len() + 1);
+    let mut states = Vec::with_capacity(events.len() + 2);
+    states.push(e.state.clone());
+    let mut ended = false;
+    for ev in events {
+        let t: Tick = process_with_audit(&mut e, ev.clone());
+        let fin = is_final_kind(&t);
+        ticks.push(t);
+        states.push(e.state.clone());
+        if fin {
+            ended = true;
+            break;
+        }
+    }
+    if !ended {
+        ticks.push(<Eng as Auditor<Audit>>::audit(&mut e, FeedEnded));
+        states.push(e.state.clone());
+    }
+    Twin { snapshot, ticks, states }
+}
+
+fn drain(rx: &mut barter_integration::channel::UnboundedRx<Tick>) -> Vec<Tick> {
+    let mut v = Vec::new();
+    while let Ok(t) = rx.rx.try_recv() {
+        v.push(t);
+    }
+    v
+}
+
+fn run_sync(w: &World, events: &[Event]) -> RunObs {
+    let mut engine = w.engine();
+    let state_before = engine.state.clone();
+    let snapshot = <Eng as Auditor<Audit>>::audit_snapshot(&mut engine);
+    let (feed_tx, mut feed_rx) = mpsc_unbounded::<Event>();
+    for ev in events {
+        feed_tx.tx.send(ev.clone()).expect("feed open");
+    }
+    drop(feed_tx); // the iterator feed ends when the channel is closed and drained
+    let (audit_tx, mut audit_rx) = mpsc_unbounded::<Tick>();
+    let mut audit_tx = ChannelTxDroppable::new(audit_tx);
+    let _ret: Audit = sync_run_with_audit(&mut feed_rx, &mut engine, &mut audit_tx);
+    drop(audit_tx);
+    let ticks = drain(&mut audit_rx);
+    RunObs { snapshot, state_before, ticks, final_state: engine.state.clone(), completed: true }
+}
+
+/// Environment schedule of the async runner: `gaps` bit i set = the runner is polled to quiescence
+/// between event i and i+1 (otherwise both are queued before the next poll); `poll_first` = polled
+/// once on the empty feed; `close_late` = the feed is closed only after a further quiescent poll.
+#[derive(Debug, Clone, Copy, PartialEq, Eq, Serialize, Deserialize)]
+pub struct Schedule {
+    pub gaps: u32,
+    pub poll_first: bool,
+    pub close_late: bool,
+}
+
+thread_local! {
+    // One paused current-thread runtime per worker: the runner spawns nothing and uses no timers, so
+    // nothing survives from one execution to the next.
+    static RT: tokio::runtime::Runtime = paused_rt();
+}
+
+fn run_async(w: &World, events: &[Event], sch: Schedule) -> RunObs {
+    RT.with(|rt| {
+        let _guard = rt.enter();
+        let mut engine = w.engine();
+        let state_before = engine.state.clone();
+        let snapshot = <Eng as Auditor<Audit>>::audit_snapshot(&mut engine);
+        let (feed_tx, mut feed_rx) = mpsc_unbounded::<Event>();
+        let (audit_tx, mut audit_rx) = mpsc_unbounded::<Tick>();
+        let mut audit_tx = ChannelTxDroppable::new(audit_tx);
+        let (flag, waker) = flag_waker();
+        let mut feed_tx = Some(feed_tx);
+        let mut completed = false;
+        {
+            let fut = async_run_with_audit(&mut feed_rx, &mut engine, &mut audit_tx);
+            let mut fut = std::pin::pin!(fut);
+            let mut poll = |completed: &mut bool| {
+                if !*completed {
+                    if let Poll::Ready(_) = poll_quiesce(fut.as_mut(), &flag, &waker) {
+                        *completed = true;
+                    }
+                }
+            };
+            if sch.poll_first {
+                poll(&mut completed);
+            }
+            let n = events.len();
+            for (i, ev) in events.iter().enumerate() {
+                if completed {
+                    break;
+                }
+                let _ = feed_tx.as_ref().unwrap().tx.send(ev.clone());
+                let last = i + 1 == n;
+                if last {
+                    if !sch.close_late {
+                        feed_tx = None;
+                    }
+                    poll(&mut completed);
+                } else if sch.gaps & (1 << i) != 0 {
+                    poll(&mut completed);
+                }
+            }
+            feed_tx = None;
+            poll(&mut completed);
+        }
+        drop(feed_tx);
+        drop(audit_tx);
+        let ticks = drain(&mut audit_rx);
+        RunObs { snapshot, state_before, ticks, final_state: engine.state.clone(), completed }
+    })
+}
+
+fn all_schedules(n: usize) -> Vec<Schedule> {
+    let gaps = if n >= 2 { 1u32 << (n - 1) } else { 1 };
+    let mut v = Vec::new();
+    for g in 0..gaps {
+        for poll_first in [false, true] {
+            for close_late in [false, true] {
+                v.push(Schedule { gaps: g, poll_first, close_late });
+            }
+        }
+    }
+    v
+}
+
+fn canonical_schedules(n: usize) -> Vec<Schedule> {
+    let all = if n >= 2 { (1u32 << (n - 1)) - 1 } else { 0 };
+    vec![
+        Schedule { gaps: 0, poll_first: false, close_late: false }, // everything queued, feed closed, one poll
+        Schedule { gaps: all, poll_first: true, close_late: true }, // one event per poll, close on its own
+    ]
+}
+
+// ------------------------------------------------------------------------------------------------
+// Oracle
+// ------------------------------------------------------------------------------------------------
+
+/// S1–S4 for one runner execution.
+fn check_stream(runner: &str, obs: &RunObs, events: &[Event], hist: &[Sym], twin: &Twin, out: &mut Vec<Viol>) -> bool {
+    let before = out.len();
+    if !obs.completed {
+        out.push((format!("C10/stream/{runner}/runner-did-not-finish"), "feed closed and drained but the runner future is still pending".into()));
+    }
+    // the snapshot is the engine state at the time it was taken
+    if obs.snapshot.event != obs.state_before {
+        out.push((format!("C10/snapshot/{runner}/state-differs-from-engine-state"), "audit_snapshot() does not carry the engine state".into()));
+    }
+    let s0 = obs.snapshot.context.sequence.value();
+    let m = obs.ticks.len();
+    if m == 0 {
+        out.push((format!("C10/stream/{runner}/no-records"), format!("{} feed events, no audit record at all (not even a final one)", events.len())));
+        return false;
+    }
+    for (i, t) in obs.ticks.iter().enumerate() {
+        let want_seq = s0 + 1 + i as u64;
+        let got_seq = t.context.sequence.value();
+        // S2
+        if got_seq != want_seq {
+            let cause = if i == 0 {
+                if got_seq <= s0 { "first-record-does-not-follow-snapshot/repeat" } else { "first-record-does-not-follow-snapshot/gap" }
+            } else if got_seq <= obs.ticks[i - 1].context.sequence.value() {
+                "repeat-or-backwards"
+            } else {
+                "gap"
+            };
+            out.push((
+                format!("C10/stream/{runner}/sequence/{cause}"),
+                format!("record #{} has sequence {got_seq}, expected {want_seq} (snapshot sequence {s0})", i + 1),
+            ));
+            break;
+        }
+    }
+    for (i, t) in obs.ticks.iter().enumerate() {
+        let last = i + 1 == m;
+        match &t.event {
+            EngineAudit::FeedEnded => {
+                if !last {
+                    out.push((format!("C10/stream/{runner}/final-kind-record-not-last/feed-ended"), format!("record #{} is FeedEnded but {} records follow", i + 1, m - i - 1)));
+                    break;
+                }
+                // S1: every feed event must have had its record before the feed-ended record
+                if i != events.len() {
+                    out.push((
+                        format!("C10/stream/{runner}/record-count/{}", if i < events.len() { "fewer-records-than-events" } else { "more-records-than-events" }),
+                        format!("FeedEnded is record #{} but the feed had {} events", i + 1, events.len()),
+                    ));
+                    break;
+                }
+            }
+            EngineAudit::Process(p) => {
+                // S1: record i carries event i
+                match events.get(i) {
+                    None => {
+                        out.push((format!("C10/stream/{runner}/record-count/more-records-than-events"), format!("record #{} but the feed had only {} events", i + 1, events.len())));
+                        break;
+                    }
+                    Some(ev) if *ev != p.event => {
+                        let cause = if i > 0 && events[i - 1] == p.event {
+                            "event-reported-twice"
+                        } else if events.get(i + 1) == Some(&p.event) {
+                            "event-without-record"
+                        } else {
+                            "carries-other-event"
+                        };
+                        out.push((
+                            format!("C10/stream/{runner}/record-event/{cause}"),
+                            format!("record #{} carries {:?}, feed event #{} is {:?} ({})", i + 1, p.event, i + 1, ev, hist[i].kind()),
+                        ));
+                        break;
+                    }
+                    _ => {}
+                }
+                // S3
+                if !last && is_final_kind(t) {
+                    out.push((
+                        format!("C10/stream/{runner}/final-kind-record-not-last/{}", final_kind_name(t)),
+                        format!("record #{} is a {} record but {} records follow", i + 1, final_kind_name(t), m - i - 1),
+                    ));
+                    break;
+                }
+                if last && !is_final_kind(t) {
+                    out.push((
+                        format!("C10/stream/{runner}/final-record-not-final-kind"),
+                        format!("last record #{} is an ordinary record of {:?}; the run ended without shutdown / feed-ended / fatal-error record", i + 1, hist[i]),
+                    ));
+                }
+            }
+        }
+    }
+    // S4: tie to the twin
+    if out.len() == before {
+        if obs.ticks.len() != twin.ticks.len() {
+            out.push((
+                format!("C10/stream/{runner}/differs-from-stepped-engine/record-count"),
+                format!("runner emitted {} records, the engine stepped with process_with_audit {}", obs.ticks.len(), twin.ticks.len()),
+            ));
+        } else {
+            for (i, (a, b)) in obs.ticks.iter().zip(twin.ticks.iter()).enumerate() {
+                if a != b {
+                    let field = match (&a.event, &b.event) {
+                        _ if a.context != b.context => "context",
+                        (EngineAudit::Process(x), EngineAudit::Process(y)) if x.event != y.event => "event",
+                        (EngineAudit::Process(x), EngineAudit::Process(y)) if x.outputs != y.outputs => "outputs",
+                        (EngineAudit::Process(x), EngineAudit::Process(y)) if x.errors != y.errors => "errors",
+                        _ => "kind",
+                    };
+                    out.push((
+                        format!("C10/stream/{runner}/differs-from-stepped-engine/{field}"),
+                        format!("record #{}: runner {:?} vs stepped engine {:?}", i + 1, a, b),
+                    ));
+                    break;
+                }
+            }
+        }
+        if obs.snapshot != twin.snapshot {
+            out.push((format!("C10/snapshot/{runner}/differs-from-stepped-engine"), "snapshot ticks differ".into()));
+        }
+    }
+    if out.len() == before && obs.final_state != *twin.states.last().unwrap() {
+        let d = compare_states(twin.states.last().unwrap(), &obs.final_state);
+        out.push((
+            format!("C10/stream/{runner}/final-engine-state-differs-from-stepped-engine"),
+            format!("same records but different engine state after the run: {:?}", d.first()),
+        ));
+    }
+    out.len() == before
+}
+
+fn order_label(o: Option<&Order<ExchangeIndex, InstrumentIndex, ActiveOrderState>>) -> &'static str {
+    match o.map(|o| &o.state) {
+        None => "untracked",
+        Some(ActiveOrderState::OpenInFlight(_)) => "open-in-flight",
+        Some(ActiveOrderState::Open(_)) => "open",
+        Some(ActiveOrderState::CancelInFlight(c)) if c.order.is_some() => "cancel-in-flight-with-open-data",
+        Some(ActiveOrderState::CancelInFlight(_)) => "cancel-in-flight-without-open-data",
+    }
+}
+
+/// R2's projection: the exchange-confirmed open data of every order, in-flight markers set aside.
+fn project(orders: &Orders) -> BTreeMap<String, Order<ExchangeIndex, InstrumentIndex, Open>> {
+    let mut m = BTreeMap::new();
+    for (cid, o) in orders.0.iter() {
+        let open = match &o.state {
+            ActiveOrderState::OpenInFlight(_) => None,
+            ActiveOrderState::Open(open) => Some(open.clone()),
+            ActiveOrderState::CancelInFlight(c) => c.order.clone(),
+        };
+        if let Some(open) = open {
+            m.insert(
+                cid.0.to_string(),
+                Order {
+                    key: o.key.clone(),
+                    side: o.side,
+                    price: o.price,
+                    quantity: o.quantity,
+                    kind: o.kind,
+                    time_in_force: o.time_in_force,
+                    state: open,
+                },
+            );
+        }
+    }
+    m
+}
+
+/// R1 + R2: (field signature fragment, detail) for every difference between engine and replica.
+fn compare_states(engine: &EState, replica: &EState) -> Vec<(String, String)> {
+    let mut d = Vec::new();
+    if engine.trading != replica.trading {
+        d.push(("trading-state".to_string(), format!("engine {:?} replica {:?}", engine.trading, replica.trading)));
+    }
+    if engine.connectivity != replica.connectivity {
+        d.push(("connectivity".to_string(), format!("engine {:?} replica {:?}", engine.connectivity, replica.connectivity)));
+    }
+    if engine.assets != replica.assets {
+        d.push(("balances".to_string(), "asset states differ".to_string()));
+    }
+    for ((name, e), (_, r)) in engine.instruments.0.iter().zip(replica.instruments.0.iter()) {
+        if e.position != r.position {
+            d.push(("position".to_string(), format!("{name}: engine {:?} replica {:?}", e.position, r.position)));
+        }
+        if e.data != r.data {
+            d.push(("market-data".to_string(), format!("{name}: engine {:?} replica {:?}", e.data, r.data)));
+        }
+        if e.tear_sheet != r.tear_sheet {
+            d.push(("instrument-statistics".to_string(), format!("{name}: tear sheets differ")));
+        }
+        let (pe, pr) = (project(&e.orders), project(&r.orders));
+        if pe != pr {
+            let cids: std::collections::BTreeSet<&String> = pe.keys().chain(pr.keys()).collect();
+            for cid in cids {
+                if pe.get(cid) != pr.get(cid) {
+                    let c = ClientOrderId::new(cid.as_str());
+                    let (le, lr) = (order_label(e.orders.0.get(&c)), order_label(r.orders.0.get(&c)));
+                    let what = match (pe.get(cid), pr.get(cid)) {
+                        (Some(a), Some(b)) if a.state != b.state => "/open-data-differs",
+                        (Some(_), Some(_)) => "/static-fields-differ",
+                        _ => "",
+                    };
+                    d.push((
+                        format!("orders/engine={le}/replica={lr}{what}"),
+                        format!("{name} order {cid}: engine {:?} replica {:?}", e.orders.0.get(&c).map(|o| &o.state), r.orders.0.get(&c).map(|o| &o.state)),
+                    ));
+                    break;
+                }
+            }
+        }
+    }
+    d
+}
+
+fn states_match(engine: &EState, replica: &EState) -> bool {
+    compare_states(engine, replica).is_empty()
+}
+
+/// Deliver one tick through the real `StateReplicaManager::run`.
+fn replica_step(mgr: &mut Replica, tick: &Tick) -> Result<Result<(), String>, ()> {
+    mgr.updates = vec![tick.clone()].into_iter();
+    guarded(|| mgr.run::<u32, ExchangeId>())
+}
+
+#[derive(Default, Clone)]
+struct Counters {
+    histories: u64,
+    sync_runs: u64,
+    async_runs: u64,
+    records_checked: u64,
+    replica_steps: u64,
+    fault_streams: u64,
+    fault_steps: u64,
+    fault_rejected: u64,
+    fault_skipped: u64,
+    with_in_flight_markers: u64,
+    with_position_exit: u64,
+    end_feed: u64,
+    end_shutdown: u64,
+    end_fatal: u64,
+    algo_orders: u64,
+    /// nanoseconds per phase (twin, sync, async, bookkeeping+hash, replica, faults); only printed with C10_PROFILE=1
+    ns: [u64; 6],
+}
+
+/// Which fault positions are derived from a recorded stream: every position, or only the last event
+/// record and the final record (used for histories that are extended further by the exploration).
+#[derive(Clone, Copy, PartialEq, Eq)]
+enum FaultMode {
+    All,
+    Tail,
+}
+
+#[derive(Clone, Copy, PartialEq, Eq)]
+enum SchedMode {
+    All,
+    Canonical,
+}
+
+/// Everything for one history in one world. Returns the violations (signature, detail, layer case).
+fn check_history(w: &World, hist: &[Sym], sched: SchedMode, faults: FaultMode, c: &mut Counters, outcome_hash: &mut Option<u64>) -> Vec<(String, String, Value)> {
+    let events: Vec<Event> = hist.iter().map(|s| w.event(s)).collect();
+    let mut res: Vec<(String, String, Value)> = Vec::new();
+    c.histories += 1;
+    let twin = match guarded(|| run_twin(w, &events)) {
+        Ok(t) => t,
+        Err(()) => {
+            res.push(("C10/stream/stepped-engine-panicked".into(), "process_with_audit panicked: no record for a fed event".into(), json!({"layer": "twin"})));
+            if outcome_hash.is_some() {
+                *outcome_hash = Some(0);
+            }
+            return res;
+        }
+    };
+
+    let t0 = std::time::Instant::now();
+    let mut lap = {
+        let mut last = t0;
+        move |c: &mut Counters, i: usize| {
+            let now = std::time::Instant::now();
+            c.ns[i] += (now - last).as_nanos() as u64;
+            last = now;
+        }
+    };
+    // --- runners ---
+    let mut v = Vec::new();
+    let sync = match guarded(|| run_sync(w, &events)) {
+        Ok(o) => o,
+        Err(_) => {
+            res.push(("C10/stream/sync/runner-panicked".into(), "sync_run_with_audit panicked".into(), json!({"layer": "sync"})));
+            return res;
+        }
+    };
+    c.sync_runs += 1;
+    lap(c, 1);
+    c.records_checked += sync.ticks.len() as u64;
+    let sync_ok = check_stream("sync", &sync, &events, hist, &twin, &mut v);
+    for (s, d) in v.drain(..) {
+        res.push((s, d, json!({"layer": "sync"})));
+    }
+    let schedules = match sched {
+        SchedMode::All => all_schedules(events.len()),
+        SchedMode::Canonical => canonical_schedules(events.len()),
+    };
+    for sch in schedules {
+        let obs = match guarded(|| run_async(w, &events, sch)) {
+            Ok(o) => o,
+            Err(_) => {
+                res.push(("C10/stream/async/runner-panicked".into(), "async_run_with_audit panicked".into(), json!({"layer": "async", "schedule": sch})));
+                continue;
+            }
+        };
+        c.async_runs += 1;
+        c.records_checked += obs.ticks.len() as u64;
+        check_stream("async", &obs, &events, hist, &twin, &mut v);
+        for (s, d) in v.drain(..) {
+            res.push((s, d, json!({"layer": "async", "schedule": sch})));
+        }
+    }
+
+    lap(c, 2);
+    // non-vacuity bookkeeping (from the twin)
+    match twin.ticks.last().map(final_kind_name) {
+        Some("feed-ended") => c.end_feed += 1,
+        Some("shutdown") => c.end_shutdown += 1,
+        Some("fatal-error") => c.end_fatal += 1,
+        _ => {}
+    }
+    for t in &twin.ticks {
+        if let EngineAudit::Process(p) = &t.event {
+            for o in p.outputs.iter() {
+                match o {
+                    EngineOutput::PositionExit(_) => c.with_position_exit += 1,
+                    EngineOutput::AlgoOrders(_) => c.algo_orders += 1,
+                    _ => {}
+                }
+            }
+        }
+    }
+    if outcome_hash.is_some() {
+        let mut h = HashWriter(fnv::FnvHasher::default());
+        use std::fmt::Write;
+        let _ = write!(h, "{:?}|{:?}", twin.states.last().unwrap(), twin.ticks.last().map(|t| &t.context));
+        *outcome_hash = Some(h.0.finish());
+    }
+
+    lap(c, 3);
+    // --- replica on the recorded stream of the sync runner (== async == twin when sync_ok) ---
+    if !sync_ok {
+        return res;
+    }
+    let ticks = &sync.ticks;
+    let states = &twin.states;
+    let mut mgr: Replica = StateReplicaManager::new(sync.snapshot.clone(), Vec::new().into_iter());
+    let mut mgrs: Vec<Replica> = Vec::with_capacity(ticks.len() + 1); // mgrs[i] = replica after i in-order ticks
+    mgrs.push(mgr.clone());
+    let mut in_order_ok = true;
+    let mut markers = false;
+    for (i, t) in ticks.iter().enumerate() {
+        let after = hist.get(i).map(|s| s.kind()).unwrap_or("feed-ended");
+        c.replica_steps += 1;
+        match replica_step(&mut mgr, t) {
+            Err(()) => {
+                res.push((format!("C10/replica/in-order/panicked/after={after}"), format!("StateReplicaManager::run panicked on in-order record #{}", i + 1), json!({"layer": "replica"})));
+                in_order_ok = false;
+                break;
+            }
+            Ok(Err(e)) => {
+                res.push((format!("C10/replica/in-order/rejected/after={after}"), format!("in-order record #{} rejected: {e}", i + 1), json!({"layer": "replica"})));
+                in_order_ok = false;
+                break;
+            }
+            Ok(Ok(())) => {}
+        }
+        let diffs = compare_states(&states[i + 1], mgr.replica_engine_state());
+        if !diffs.is_empty() {
+            for (f, d) in diffs {
+                res.push((format!("C10/replica/in-order/{f}/after={after}"), format!("after record #{}: {d}", i + 1), json!({"layer": "replica"})));
+            }
+            in_order_ok = false;
+            break;
+        }
+        if states[i + 1].instruments.0.values().zip(mgr.replica_engine_state().instruments.0.values()).any(|(e, r)| e.orders != r.orders) {
+            markers = true;
+        }
+        mgrs.push(mgr.clone());
+    }
+    if markers {
+        c.with_in_flight_markers += 1;
+    }
+    if !in_order_ok {
+        return res;
+    }
+    // the whole stream in one `run()` call
+    {
+        // … fed by the real audit channel (`UnboundedRx` as `Iterator`), as `SnapUpdates` hands it out
+        let (tx, rx) = mpsc_unbounded::<Tick>();
+        for t in ticks {
+            let _ = tx.tx.send(t.clone());
+        }
+        drop(tx);
+        let mut whole = StateReplicaManager::new(sync.snapshot.clone(), rx);
+        match guarded(|| whole.run::<u32, ExchangeId>()) {
+            Ok(Ok(())) => {
+                if !states_match(states.last().unwrap(), whole.replica_engine_state()) {
+                    res.push(("C10/replica/in-order/whole-stream-run-differs-from-engine".into(), "run() over the whole stream ends in a different state".into(), json!({"layer": "replica"})));
+                }
+            }
+            Ok(Err(e)) => res.push(("C10/replica/in-order/rejected/whole-stream".into(), format!("in-order stream rejected: {e}"), json!({"layer": "replica"}))),
+            Err(_) => res.push(("C10/replica/in-order/panicked/whole-stream".into(), "run() panicked".into(), json!({"layer": "replica"}))),
+        }
+    }
+
+    lap(c, 4);
+    // --- F1: fault streams ---
+    let m = ticks.len();
+    for (kind, kmax) in [("drop", m.saturating_sub(1)), ("duplicate", m), ("swap", m.saturating_sub(1))] {
+        // `Tail`: a fault stream with an earlier fault is, up to its final record, a prefix of a fault
+        // stream of every one-symbol extension of this history, and is delivered there
+        let kmin = match faults {
+            FaultMode::All => 0,
+            FaultMode::Tail => m.saturating_sub(2),
+        };
+        for k in kmin..kmax {
+            // the stream is in order up to (excluding) tick k: start from the replica after k ticks
+            let order: Vec<usize> = match kind {
+                "drop" => (k + 1..m).collect(),
+                "duplicate" => std::iter::once(k).chain(k..m).collect(),
+                _ => [k + 1, k].into_iter().chain(k + 2..m).collect(),
+            };
+            c.fault_streams += 1;
+            let mut r = mgrs[k].clone();
+            let mut possible: Vec<usize> = vec![k]; // admissible numbers of applied ticks
+            for j in order {
+                c.fault_steps += 1;
+                let result = replica_step(&mut r, &ticks[j]);
+                // `mgrs[a]` is the replica after a in-order ticks, already shown equal (R1/R2) to the engine
+                // state after a records; the replica is deterministic, so "unchanged" and "advanced by the
+                // next in-order tick" can be decided by plain equality with those replica states.
+                let rs = r.replica_engine_state();
+                let mut next: Vec<usize> = Vec::new();
+                for a in &possible {
+                    if mgrs[*a].replica_engine_state() == rs && !next.contains(a) {
+                        next.push(*a); // rejected or skipped
+                    }
+                    if *a == j && mgrs[j + 1].replica_engine_state() == rs && !next.contains(&(j + 1)) {
+                        next.push(j + 1); // it was the next in-order tick: applying it is fine
+                    }
+                }
+                match &result {
+                    Ok(Err(_)) => c.fault_rejected += 1,
+                    Ok(Ok(())) if !possible.contains(&j) => c.fault_skipped += 1,
+                    _ => {}
+                }
+                if result.is_err() || next.is_empty() {
+                    let after = hist.get(j).map(|s| s.kind()).unwrap_or("feed-ended");
+                    let how = match &result {
+                        Err(()) => "panicked",
+                        Ok(Ok(())) => "applied-silently",
+                        Ok(Err(_)) => "applied-then-rejected",
+                    };
+                    let relation = if possible.iter().all(|a| j < *a) { "already-applied-record" } else { "record-after-gap" };
+                    res.push((
+                        format!("C10/replica/fault={kind}/{relation}/{how}"),
+                        format!(
+                            "stream with tick #{} {kind}: delivering record #{} ({after}; in-order records applied so far: {:?}) changed the replica to a state that is neither unchanged nor the engine state after that record",
+                            k + 1, j + 1, possible
+                        ),
+                        json!({"layer": "fault", "fault": kind, "k": k}),
+                    ));
+                    break;
+                }
+                possible = next;
+            }
+        }
+    }
+    lap(c, 5);
+    res
+}
+
+thread_local! {
+    static GUARDED: Cell<bool> = const { Cell::new(false) };
+}
+
+/// Run code under test; a panic inside is caught (and not printed) so that it can be reported as a
+/// violation. Panics outside `guarded` (harness bugs) keep the default behaviour (exit 2).
+fn guarded<T>(f: impl FnOnce() -> T) -> Result<T, ()> {
+    static HOOK: std::sync::Once = std::sync::Once::new();
+    HOOK.call_once(|| {
+        let prev = std::panic::take_hook();
+        std::panic::set_hook(Box::new(move |info| {
+            if !GUARDED.with(|g| g.get()) {
+                prev(info)
+            }
+        }));
+    });
+    let before = GUARDED.with(|g| g.replace(true));
+    let r = catch_unwind(AssertUnwindSafe(f)).map_err(|_| ());
+    GUARDED.with(|g| g.set(before));
+    r
+}
+
+struct HashWriter(fnv::FnvHasher);
+impl std::fmt::Write for HashWriter {
+    fn write_str(&mut self, s: &str) -> std::fmt::Result {
+        self.0.write(s.as_bytes());
+        Ok(())
+    }
+}
+
+// ------------------------------------------------------------------------------------------------
+// Exploration
+// ------------------------------------------------------------------------------------------------
+
+struct Shared<'a> {
+    ctx: &'a Ctx,
+    counters: std::sync::Mutex<Counters>,
+    distinct: Distinct,
+    best: std::sync::Mutex<HashMap<String, usize>>,
+    samples: Samples,
+}
+
+fn add(a: &mut Counters, b: &Counters) {
+    a.histories += b.histories;
+    a.sync_runs += b.sync_runs;
+    a.async_runs += b.async_runs;
+    a.records_checked += b.records_checked;
+    a.replica_steps += b.replica_steps;
+    a.fault_streams += b.fault_streams;
+    a.fault_steps += b.fault_steps;
+    a.fault_rejected += b.fault_rejected;
+    a.fault_skipped += b.fault_skipped;
+    a.with_in_flight_markers += b.with_in_flight_markers;
+    a.with_position_exit += b.with_position_exit;
+    a.end_feed += b.end_feed;
+    a.end_shutdown += b.end_shutdown;
+    a.end_fatal += b.end_fatal;
+    a.algo_orders += b.algo_orders;
+    for i in 0..a.ns.len() {
+        a.ns[i] += b.ns[i];
+    }
+}
+
+fn case_of(widx: usize, w: &World, hist: &[Sym], extra: &Value) -> Value {
+    json!({"world": widx, "world_name": w.spec.name, "hist": hist, "where": extra})
+}
+
+fn report(sh: &Shared, widx: usize, w: &World, hist: &[Sym], viols: Vec<(String, String, Value)>) {
+    for (sig, detail, extra) in viols {
+        let mut best = sh.best.lock().unwrap();
+        match best.get(&sig) {
+            // equal length is passed on too: the collector keeps the (length, text)-smallest case, which
+            // makes the retained counter-example independent of thread timing
+            Some(l) if *l < hist.len() => {
+                drop(best);
+                sh.ctx.violations.bump(&sig);
+            }
+            _ => {
+                best.insert(sig.clone(), hist.len());
+                drop(best);
+                sh.ctx.violate(sig, detail, case_of(widx, w, hist, &extra));
+            }
+        }
+    }
+}
+
+#[allow(clippy::too_many_arguments)]
+fn dfs(sh: &Shared, widx: usize, w: &World, base: &[Sym], hist: &mut Vec<Sym>, max_len: usize, all_sched_upto: usize, c: &mut Counters, local: &mut HashSet<u64>) {
+    let sched = if hist.len() <= all_sched_upto { SchedMode::All } else { SchedMode::Canonical };
+    let faults = if hist.len() <= 2 || hist.len() >= max_len { FaultMode::All } else { FaultMode::Tail };
+    let mut oh = Some(0u64);
+    let viols = check_history(w, hist, sched, faults, c, &mut oh);
+    local.insert(oh.unwrap());
+    if !viols.is_empty() {
+        report(sh, widx, w, hist, viols);
+    }
+    if hist.len() >= max_len {
+        return;
+    }
+    for s in alphabet(w, base, hist) {
+        hist.push(s);
+        dfs(sh, widx, w, base, hist, max_len, all_sched_upto, c, local);
+        hist.pop();
+    }
+}
+
+/// All histories of length <= max_len over `base` in world `widx`, parallel over 2-symbol prefixes.
+fn explore(sh: &Shared, widx: usize, w: &World, base: &[Sym], max_len: usize, all_sched_upto: usize, skip_upto: usize) {
+    // histories of length <= skip_upto were already covered by a layer with a superset alphabet
+    let mut prefixes: Vec<Vec<Sym>> = vec![];
+    let mut c = Counters::default();
+    let mut local = HashSet::new();
+    let top = |hist: &Vec<Sym>, c: &mut Counters, local: &mut HashSet<u64>| {
+        if hist.len() > skip_upto {
+            let mut oh = Some(0u64);
+            let viols = check_history(w, hist, SchedMode::All, FaultMode::All, c, &mut oh);
+            local.insert(oh.unwrap());
+            report(sh, widx, w, hist, viols);
+        }
+    };
+    top(&vec![], &mut c, &mut local);
+    if max_len >= 1 {
+        for s1 in alphabet(w, base, &[]) {
+            let h1 = vec![s1];
+            if max_len == 1 {
+                top(&h1, &mut c, &mut local);
+                continue;
+            }
+            top(&h1, &mut c, &mut local);
+            for s2 in alphabet(w, base, &h1) {
+                prefixes.push(vec![s1, s2]);
+            }
+        }
+    }
+    sh.distinct.merge_local(&local);
+    add(&mut sh.counters.lock().unwrap(), &c);
+    prefixes.into_par_iter().for_each(|mut h| {
+        let mut c = Counters::default();
+        let mut local = HashSet::new();
+        if skip_upto >= max_len {
+            return;
+        }
+        if skip_upto >= 2 {
+            // only descend; nodes of length <= skip_upto are not re-checked
+            dfs_skip(sh, widx, w, base, &mut h, max_len, all_sched_upto, skip_upto, &mut c, &mut local);
+        } else {
+            dfs(sh, widx, w, base, &mut h, max_len, all_sched_upto, &mut c, &mut local);
+        }
+        sh.distinct.merge_local(&local);
+        add(&mut sh.counters.lock().unwrap(), &c);
+    });
+}
+
+#[allow(clippy::too_many_arguments)]
+fn dfs_skip(sh: &Shared, widx: usize, w: &World, base: &[Sym], hist: &mut Vec<Sym>, max_len: usize, all_sched_upto: usize, skip_upto: usize, c: &mut Counters, local: &mut HashSet<u64>) {
+    if hist.len() > skip_upto {
+        return dfs(sh, widx, w, base, hist, max_len, all_sched_upto, c, local);
+    }
+    if hist.len() >= max_len {
+        return;
+    }
+    for s in alphabet(w, base, hist) {
+        hist.push(s);
+        dfs_skip(sh, widx, w, base, hist, max_len, all_sched_upto, skip_upto, c, local);
+        hist.pop();
+    }
+}
+
+// ------------------------------------------------------------------------------------------------
+// Secondary layer: joint-state BFS (engine state x replica state) with state de-duplication
+// ------------------------------------------------------------------------------------------------
+
+/// Joint state of the real engine and the real replica after the same records, plus the strategy's
+/// memory and the alphabet monitor. Two histories are merged only if all of it agrees.
+#[derive(Clone)]
+struct Joint {
+    engine: EState,
+    replica: EState,
+    issued: [bool; 2],
+    close_n: u32,
+    may_track: [bool; 2],
+}
+
+impl Joint {
+    /// 128-bit key of the canonical (Debug) form; only the key is stored in the visited set.
+    fn key(&self) -> (u64, u64) {
+        use std::fmt::Write;
+        thread_local! {
+            static BUF: std::cell::RefCell<String> = const { std::cell::RefCell::new(String::new()) };
+        }
+        BUF.with(|b| {
+            let mut b = b.borrow_mut();
+            b.clear();
+            let _ = write!(b, "{:?}|{:?}|{:?}|{}|{:?}", self.engine, self.replica, self.issued, self.close_n, self.may_track);
+            let mut h1 = fnv::FnvHasher::default();
+            let mut h2 = fnv::FnvHasher::with_key(0x9e37_79b9_7f4a_7c15);
+            h1.write(b.as_bytes());
+            h2.write(b.as_bytes());
+            (h1.finish(), h2.finish())
+        })
+    }
+}
+
+const BFS_SEQ: u64 = 10;
+
+/// One transition: the real engine (rebuilt around `j.engine`) processes the event with
+/// `process_with_audit`; the real replica (rebuilt around `j.replica`) is handed, through `run()`,
+/// (F1) the record as if one record before it were missing, (R1/R2) the record itself, (F1) the record again.
+fn joint_step(w: &World, j: &Joint, sym: &Sym, out: &mut Vec<Viol>) -> Option<Joint> {
+    let after = sym.kind();
+    let mut e = w.engine_from(j.engine.clone(), j.issued, j.close_n, BFS_SEQ);
+    // context of "the previous record" taken the real way, so that nothing is assumed about numbering
+    let prev_ctx: EngineContext = <Eng as Auditor<Audit>>::audit(&mut e, FeedEnded).context;
+    let ev = w.event(sym);
+    let tick: Tick = match guarded(|| process_with_audit(&mut e, ev)) {
+        Ok(t) => t,
+        Err(()) => {
+            out.push(("C10/stream/stepped-engine-panicked".into(), format!("process_with_audit panicked on {sym:?}")));
+            return None;
+        }
+    };
+    let snap: SnapTick = AuditTick { event: j.replica.clone(), context: prev_ctx };
+    // F1: a record after a gap
+    {
+        let mut gap = tick.clone();
+        gap.context.sequence = Sequence(tick.context.sequence.value() + 1);
+        let mut m: Replica = StateReplicaManager::new(snap.clone(), Vec::new().into_iter());
+        let r = replica_step(&mut m, &gap);
+        if r.is_err() || *m.replica_engine_state() != j.replica {
+            let how = match r { Err(()) => "panicked", Ok(Ok(())) => "applied-silently", Ok(Err(_)) => "applied-then-rejected" };
+            out.push((format!("C10/replica/fault=drop/record-after-gap/{how}"), format!("record of {after} with sequence +2 changed the replica")));
+        }
+    }
+    let mut m: Replica = StateReplicaManager::new(snap, Vec::new().into_iter());
+    match replica_step(&mut m, &tick) {
+        Err(()) => {
+            out.push((format!("C10/replica/in-order/panicked/after={after}"), "StateReplicaManager::run panicked".into()));
+            return None;
+        }
+        Ok(Err(err)) => {
+            out.push((format!("C10/replica/in-order/rejected/after={after}"), format!("in-order record rejected: {err}")));
+            return None;
+        }
+        Ok(Ok(())) => {}
+    }
+    let diffs = compare_states(&e.state, m.replica_engine_state());
+    let diverged = !diffs.is_empty();
+    for (f, d) in diffs {
+        out.push((format!("C10/replica/in-order/{f}/after={after}"), d));
+    }
+    // F1: the same record again (the successor state is the one before this delivery)
+    let before = m.replica_engine_state().clone();
+    {
+        let r = replica_step(&mut m, &tick);
+        if r.is_err() || *m.replica_engine_state() != before {
+            let how = match r { Err(()) => "panicked", Ok(Ok(())) => "applied-silently", Ok(Err(_)) => "applied-then-rejected" };
+            out.push((format!("C10/replica/fault=duplicate/already-applied-record/{how}"), format!("record of {after} delivered twice changed the replica again")));
+        }
+    }
+    if is_final_kind(&tick) || diverged {
+        // the run ends here / a diverged replica is not followed further (no cascades)
+        return None;
+    }
+    Some(Joint {
+        engine: e.state.clone(),
+        replica: before,
+        issued: [e.strategy.issued[0].get(), e.strategy.issued[1].get()],
+        close_n: e.strategy.close_n.get(),
+        may_track: [j.may_track[0] || sym.may_track(0), j.may_track[1] || sym.may_track(1)],
+    })
+}
+
+#[derive(Default)]
+struct JointStats {
+    states: usize,
+    transitions: u64,
+    depth_completed: usize,
+    capped: bool,
+    frontier_sizes: Vec<usize>,
+}
+
+fn joint_init(w: &World) -> Joint {
+    Joint { engine: w.state0.clone(), replica: w.state0.clone(), issued: [false, false], close_n: 0, may_track: [false, false] }
+}
+
+/// Level-synchronous BFS, parallel expansion, sequential (deterministic) merge.
+fn joint_bfs(ctx: &Ctx, widx: usize, w: &World, base: &[Sym], max_depth: usize, max_states: usize) -> JointStats {
+    let mut st = JointStats::default();
+    let init = joint_init(w);
+    let mut seen: HashSet<(u64, u64)> = HashSet::new();
+    seen.insert(init.key());
+    let mut nodes: Vec<(u32, Option<Sym>)> = vec![(0, None)];
+    let mut frontier: Vec<(u32, Joint)> = vec![(0, init)];
+    st.frontier_sizes.push(1);
+    let mut first: HashSet<String> = HashSet::new();
+    let path_of = |nodes: &Vec<(u32, Option<Sym>)>, mut id: u32| {
+        let mut rev = Vec::new();
+        while let (p, Some(s)) = nodes[id as usize] {
+            rev.push(s);
+            id = p;
+        }
+        rev.reverse();
+        rev
+    };
+    for depth in 0..max_depth {
+        if frontier.is_empty() || st.capped {
+            break;
+        }
+        let last_level = depth + 1 == max_depth;
+        let nodes_before = nodes.len();
+        let mut next_frontier = Vec::new();
+        // chunked so that only a bounded number of successor states is alive at once; successors whose
+        // key is already known are dropped inside the parallel phase (`seen` is only read there)
+        for chunk in frontier.chunks(512) {
+            let seen_ro = &seen;
+            let expanded: Vec<(u32, Vec<(Sym, Vec<Viol>, Option<((u64, u64), Option<Joint>)>)>)> = chunk
+                .par_iter()
+                .map(|(id, j)| {
+                    let mut v = Vec::new();
+                    for sym in alphabet_bits(w, base, j.may_track) {
+                        let mut out = Vec::new();
+                        let next = joint_step(w, j, &sym, &mut out).map(|n| {
+                            let k = n.key();
+                            let keep = !last_level && !seen_ro.contains(&k);
+                            (k, keep.then_some(n))
+                        });
+                        v.push((sym, out, next));
+                    }
+                    (*id, v)
+                })
+                .collect();
+            for (pid, succs) in expanded {
+                for (sym, viols, next) in succs {
+                    st.transitions += 1;
+                    for (sig, detail) in viols {
+                        if first.insert(sig.clone()) {
+                            let mut path = path_of(&nodes, pid);
+                            path.push(sym);
+                            ctx.violate(sig, detail, json!({"world": widx, "world_name": w.spec.name, "path": path, "where": {"layer": "joint-bfs"}}));
+                        } else {
+                            ctx.violations.bump(&sig);
+                        }
+                    }
+                    if let Some((k, n)) = next {
+                        if seen.insert(k) {
+                            if nodes.len() >= max_states {
+                                st.capped = true;
+                                continue;
+                            }
+                            nodes.push((pid, Some(sym)));
+                            if let Some(n) = n {
+                                next_frontier.push(((nodes.len() - 1) as u32, n));
+                            }
+                        }
+                    }
+                }
+            }
+            if st.capped {
+                break;
+            }
+        }
+        if st.capped {
+            break;
+        }
+        st.depth_completed += 1;
+        if nodes.len() > nodes_before {
+            st.frontier_sizes.push(nodes.len() - nodes_before);
+        }
+        frontier = next_frontier;
+    }
+    st.states = nodes.len();
+    st
+}
+
+fn joint_replay(ctx: &Ctx, widx: usize, w: &World, case: &Value) {
+    let path: Vec<Sym> = serde_json::from_value(case["path"].clone()).expect("replay: path does not parse");
+    let mut j = joint_init(w);
+    for (i, sym) in path.iter().enumerate() {
+        let mut out = Vec::new();
+        let next = joint_step(w, &j, sym, &mut out);
+        println!("replay step {i}: {sym:?} -> {} violation(s)", out.len());
+        for (sig, detail) in out {
+            println!("    {sig}: {detail}");
+            ctx.violate(sig, detail, case.clone());
+        }
+        match next {
+            Some(n) => j = n,
+            None => break,
+        }
+    }
+}
+
+/// Negative control: the check must report the sabotaging strategy (machinery self-test, exit 2 if not).
+fn negative_control() -> (u64, Vec<String>) {
+    let w = World::new(sabotage_world());
+    let base = base_alphabet(Level_::Full);
+    let mut sigs = Vec::new();
+    let mut n = 0;
+    let mut c = Counters::default();
+    for s1 in alphabet(&w, &base, &[]) {
+        let mut oh = None;
+        n += 1;
+        for (sig, _, _) in check_history(&w, &[s1], SchedMode::Canonical, FaultMode::All, &mut c, &mut oh) {
+            if !sigs.contains(&sig) {
+                sigs.push(sig);
+            }
+        }
+    }
+    (n, sigs)
+}
+
+/// Same history twice => identical observations (machinery self-test).
+fn determinism_selfcheck(ws: &[World]) -> u64 {
+    let base = base_alphabet(Level_::Full);
+    let mut n = 0;
+    for w in ws {
+        for s1 in alphabet(w, &base, &[]) {
+            for s2 in alphabet(w, &base, &[s1]).into_iter().step_by(5) {
+                let hist = [s1, s2];
+                let events: Vec<Event> = hist.iter().map(|s| w.event(s)).collect();
+                let sch = canonical_schedules(2)[1];
+                let (Ok(a), Ok(b), Ok(x), Ok(y)) = (
+                    guarded(|| run_sync(w, &events)),
+                    guarded(|| run_sync(w, &events)),
+                    guarded(|| run_async(w, &events, sch)),
+                    guarded(|| run_async(w, &events, sch)),
+                ) else {
+                    continue; // a panic of the code under test is reported by the exploration itself
+                };
+                if a.ticks != b.ticks || a.final_state != b.final_state || a.snapshot != b.snapshot || x.ticks != y.ticks || x.final_state != y.final_state {
+                    eprintln!("MACHINERY: C10 non-deterministic observation for {hist:?} in world {}", w.spec.name);
+                    std::process::exit(2);
+                }
+                n += 1;
+            }
+        }
+    }
+    n
+}
+
+pub fn run(ctx: &Ctx) -> Outcome {
+    let n_worlds = ctx.tier.pick(5, 7);
+    let ws: Vec<World> = worlds().into_iter().take(n_worlds).map(World::new).collect();
+    let selfcheck = determinism_selfcheck(&ws);
+    let (nc_hist, nc_sigs) = negative_control();
+    // (if the stream layer already fails on the code under test the replica layer is not reached: the
+    // control is then inconclusive, not failed)
+    if !nc_sigs.iter().any(|s| s.starts_with("C10/replica/in-order/trading-state/after=") || s.starts_with("C10/stream/") || s.starts_with("C10/snapshot/")) {
+        eprintln!("MACHINERY: C10 negative control (strategy mutating state in on_disconnect) was NOT reported: {nc_sigs:?}");
+        std::process::exit(2);
+    }
+
+    // bounds
+    let full_len = ctx.tier.pick(3, 4);
+    let core_len = ctx.tier.pick(4, 5);
+    let all_sched_upto = ctx.tier.pick(2, 3);
+
+    let sh = Shared {
+        ctx,
+        counters: std::sync::Mutex::new(Counters::default()),
+        distinct: Distinct::default(),
+        best: std::sync::Mutex::new(HashMap::new()),
+        samples: Samples::new(6),
+    };
+    let full = base_alphabet(Level_::Full);
+    let core = base_alphabet(Level_::Core);
+    let mut per_world = Vec::new();
+    for (i, w) in ws.iter().enumerate() {
+        let before = sh.counters.lock().unwrap().histories;
+        explore(&sh, i, w, &full, full_len, all_sched_upto, 0);
+        let mid = sh.counters.lock().unwrap().histories;
+        // deeper layer over the core alphabet (a subset of the full one: lengths <= full_len are covered)
+        explore(&sh, i, w, &core, core_len, all_sched_upto, full_len);
+        let after = sh.counters.lock().unwrap().histories;
+        per_world.push(json!({"world": w.spec.name, "histories_full_alphabet": mid - before, "histories_core_alphabet_deeper": after - mid}));
+        // deterministic sample of an explored maximal history: symbol (7*depth+3+world) mod |alphabet| at every depth
+        let mut h: Vec<Sym> = Vec::new();
+        while h.len() < full_len {
+            let a = alphabet(w, &full, &h);
+            if a.is_empty() {
+                break;
+            }
+            h.push(a[(7 * h.len() + 3 + i) % a.len()]);
+        }
+        sh.samples.offer(|| json!({"world": i, "world_name": w.spec.name, "hist": h}));
+    }
+    // secondary layer: deeper, with state de-duplication, engine x replica only (no runners)
+    let bfs_depth = ctx.tier.pick(4, 6);
+    let bfs_cap = ctx.tier.pick(200_000, 2_000_000);
+    let mut bfs_rows = Vec::new();
+    let (mut bfs_states, mut bfs_transitions, mut bfs_capped) = (0usize, 0u64, false);
+    for (i, w) in ws.iter().enumerate() {
+        let st = joint_bfs(ctx, i, w, &full, bfs_depth, bfs_cap);
+        bfs_states += st.states;
+        bfs_transitions += st.transitions;
+        bfs_capped |= st.capped;
+        bfs_rows.push(json!({"world": w.spec.name, "states": st.states, "transitions": st.transitions, "depth_completed": st.depth_completed, "capped": st.capped, "frontier_sizes": st.frontier_sizes}));
+    }
+    let c = sh.counters.lock().unwrap().clone();
+    if std::env::var("C10_PROFILE").is_ok() {
+        eprintln!("C10 cpu ms by phase [sync(+twin), async, bookkeeping+hash, replica in-order, faults]: {:?}", c.ns.iter().map(|n| n / 1_000_000).collect::<Vec<_>>());
+    }
+    Outcome {
+        level: "exploration",
+        coverage: json!({
+            "evaluations": c.histories,
+            "distinct_nontrivial": sh.distinct.len(),
+            "exhaustive": true,
+            "rule": "every engine-event history of length <= bound over the alphabet, in every world, run through sync_run_with_audit, async_run_with_audit (environment schedules) and a process_with_audit twin; recorded stream checked (S1-S4), real StateReplicaManager stepped tick by tick (R1, R2), every drop/duplicate/swap fault stream (F1)",
+            "bounds": {
+                "full_alphabet_symbols": full.len(), "full_alphabet_max_len": full_len,
+                "core_alphabet_symbols": core.len(), "core_alphabet_max_len": core_len,
+                "all_async_schedules_up_to_len": all_sched_upto, "worlds": ws.len(),
+            },
+            "per_world": per_world,
+            "joint_state_bfs": {
+                "rule": "BFS with de-duplication over (engine state, replica state, strategy memory): every transition = real process_with_audit + real StateReplicaManager::run on the record after a gap, the record, the record again",
+                "max_depth": bfs_depth, "states": bfs_states, "transitions": bfs_transitions, "capped": bfs_capped, "per_world": bfs_rows,
+            },
+            "joint_bfs_states": bfs_states,
+            "joint_bfs_transitions": bfs_transitions,
+            "sync_runs": c.sync_runs,
+            "async_runs": c.async_runs,
+            "records_checked": c.records_checked,
+            "replica_steps_in_order": c.replica_steps,
+            "fault_streams": c.fault_streams,
+            "fault_stream_steps": c.fault_steps,
+            "fault_records_rejected": c.fault_rejected,
+            "fault_records_skipped": c.fault_skipped,
+            "histories_with_in_flight_markers_set_aside": c.with_in_flight_markers,
+            "position_exit_outputs": c.with_position_exit,
+            "algo_order_outputs": c.algo_orders,
+            "runs_ending_feed_ended": c.end_feed,
+            "runs_ending_shutdown": c.end_shutdown,
+            "runs_ending_fatal_error": c.end_fatal,
+            "determinism_selfcheck_histories": selfcheck,
+            "negative_control": {"histories": nc_hist, "reported_signatures": nc_sigs},
+            "samples": sh.samples.take(),
+        }),
+        assumptions: vec![
+            "client order ids are used once: an open request for cid X is never issued after a report/request that may have made X tracked (engine contract, DESIGN §7)".into(),
+            "exchange order reports echo the static fields (side, price, quantity, kind, time in force, key) of the request with the same client order id".into(),
+            "order reports carry exchange states only (Open, FullyFilled, Cancelled, OpenFailed), never the engine-internal OpenInFlight/CancelInFlight markers".into(),
+            "instrument data is DefaultInstrumentMarketData and global data DefaultGlobalData (no user state that records in-flight requests)".into(),
+            "strategies: one that never issues orders and one deterministic state-driven strategy issuing/cancelling two orders; on_disconnect/on_trading_disabled hooks do not mutate engine state (the negative control does and is reported)".into(),
+            "2 exchanges, 3 instruments, 2 order templates; histories bounded as stated under bounds".into(),
+            "after a Shutdown event only one further feed event is appended (it must stay unprocessed)".into(),
+        ],
+    }
+}
+
+pub fn replay(ctx: &Ctx, case: &Value) {
+    let widx = case["world"].as_u64().unwrap_or(0) as usize;
+    let mut specs = worlds();
+    specs.push(sabotage_world());
+    let spec = specs.into_iter().nth(widx).expect("replay: bad world index");
+    let w = World::new(spec);
+    if case.get("path").is_some() {
+        return joint_replay(ctx, widx, &w, case);
+    }
+    let hist: Vec<Sym> = serde_json::from_value(case["hist"].clone()).expect("replay: hist does not parse");
+    println!("replay world={} hist={hist:?}", w.spec.name);
+    let mut c = Counters::default();
+    let mut oh = None;
+    let viols = check_history(&w, &hist, SchedMode::All, FaultMode::All, &mut c, &mut oh);
+    println!(
+        "replay: {} sync run, {} async runs, {} records, {} replica steps, {} fault streams -> {} violation(s)",
+        c.sync_runs, c.async_runs, c.records_checked, c.replica_steps, c.fault_streams, viols.len()
+    );
+    for (sig, detail, extra) in viols {
+        println!("    {sig}: {detail}");
+        ctx.violate(sig, detail, case_of(widx, &w, &hist, &extra));
+    }
 }
